@@ -46,6 +46,7 @@ var (
 	c01AddrSuiA    = common.HexToAddress("0x00000000000000000000000000000000000c0102")
 	c01AddrSuiB    = common.HexToAddress("0x00000000000000000000000000000000000c0103")
 	c01AddrTouch2  = common.HexToAddress("0x00000000000000000000000000000000000c0104") // zero-value CALL to two empty plain addresses
+	c01AddrProbe   = common.HexToAddress("0x00000000000000000000000000000000000c0105") // BALANCE of the four addresses passed as call data words
 	c01Empty1      = common.HexToAddress("0x00000000000000000000000000000000000e0001")
 	c01Empty2      = common.HexToAddress("0x00000000000000000000000000000000000e0002")
 	c01Vest2010    = world.NewAcct("c01-vest-2010")
@@ -61,7 +62,7 @@ type c01Kind string
 // c01Alphabet is ordered simplest first.
 var c01Alphabet = []c01Kind{"transfer", "log1", "sstore", "sclear", "create-ok", "log-revert", "cosmos-send", "bad-nonce", "garbage",
 	"suicide-multidenom", "touch-two-empty", "double-suicide", "touch-vest-2010", "touch-vest-2050", "touch-vest-cont", "erc20-transfer", "staking-transfer",
-	"cpc-deploy-utwo", "erc20-utwo-transfer"}
+	"cpc-deploy-utwo", "erc20-utwo-transfer", "probe-cpcs"}
 
 type c01Case struct {
 	Blocks [][]c01Kind `json:"blocks"`
@@ -114,6 +115,9 @@ func c01Config(p c01Policy) world.Config {
 		world.Contract{Addr: c01AddrDouble, Code: asm.New().
 			Call(asm.CALL, c01AddrSuiA, 0, 0, 0, 0, 0, 0).Op(asm.POP).
 			Call(asm.CALL, c01AddrSuiB, 0, 0, 0, 0, 0, 0).Op(asm.POP).Stop().Bytes()},
+		world.Contract{Addr: c01AddrProbe, Code: asm.New().
+			PushU(0).Op(asm.CALLDATALOAD, asm.BALANCE, asm.POP).PushU(32).Op(asm.CALLDATALOAD, asm.BALANCE, asm.POP).
+			PushU(64).Op(asm.CALLDATALOAD, asm.BALANCE, asm.POP).PushU(96).Op(asm.CALLDATALOAD, asm.BALANCE, asm.POP).Stop().Bytes()},
 		world.Contract{Addr: c01AddrTouch2, Code: asm.New().
 			Call(asm.CALL, c01Empty1, 0, 0, 0, 0, 0, 0).Op(asm.POP).
 			Call(asm.CALL, c01Empty2, 0, 0, 0, 0, 0, 0).Op(asm.POP).Stop().Bytes()},
@@ -188,11 +192,23 @@ func c01BuildTx(w *world.World, k c01Kind, sender int, nonce uint64, base *big.I
 	case "erc20-utwo-transfer": // call the utwo precompile at the address it gets when deployed first (an empty account before that)
 		tok := c01UtwoToken(w)
 		return eth(tok, Enc("transfer(address,uint256)", AddrWord(AddrSink), Word(big.NewInt(1))), 300000)
+	case "probe-cpcs": // a contract reads the balance of every custom precompiled contract: each one is warm or cold depending on the access list the tx was given
+		return eth(c01AddrProbe, c01ProbeData(w), 200000)
 	case "staking-transfer":
 		amt := new(big.Int).Exp(big.NewInt(10), big.NewInt(15), nil)
 		return eth(cpctypes.CpcStakingFixedAddress, Enc("transfer(address,uint256)", AddrWord(a.Eth()), Word(amt)), 1500000)
 	}
 	panic("unknown c01 kind " + string(k))
+}
+
+// c01ProbeData: the addresses of the staking precompile, the native-coin ERC-20 precompile, the (future) utwo precompile and one plain address.
+func c01ProbeData(w *world.World) []byte {
+	native := common.BytesToAddress(w.App.CPCKeeper.GetErc20CustomPrecompiledContractAddressByMinDenom(w.Ctx(), world.Denom).Bytes())
+	var data []byte
+	for _, a := range []common.Address{cpctypes.CpcStakingFixedAddress, native, c01UtwoToken(w), c01Empty1} {
+		data = append(data, AddrWord(a)...)
+	}
+	return data
 }
 
 // c01UtwoToken: the address the first dynamically deployed precompile of this world gets (or has).
@@ -209,6 +225,13 @@ type c01Hits map[string]int
 
 // c01Exec runs one history under one policy and returns the observation vector (one string per block).
 func c01Exec(c c01Case, p c01Policy) (vec []string, hits c01Hits, outcome string) {
+	vec, hits, outcome, _ = c01ExecConc(c, p, nil)
+	return
+}
+
+// c01ExecConc is c01Exec with an optional request served "concurrently" (see c01_conc.go); points[b] is the number of
+// statement-level points block b passed through during FinalizeBlock (their sites, in order).
+func c01ExecConc(c c01Case, p c01Policy, conc *c01Conc) (vec []string, hits c01Hits, outcome string, points [][]string) {
 	hits = c01Hits{}
 	vrt.MapOrder = func(site string, n int) []int {
 		if n < 2 {
@@ -268,7 +291,22 @@ func c01Exec(c c01Case, p c01Policy) (vec []string, hits c01Hits, outcome string
 	w.Block(nil)
 	nonce := map[int]uint64{}
 	var oc []string
-	for _, blk := range c.Blocks {
+	inBlock, inReq, blockIdx, pts := false, false, 0, 0
+	var sites []string
+	vrt.OnPoint = func(site string) {
+		if !inBlock || inReq {
+			return
+		}
+		pts++
+		sites = append(sites, site)
+		if conc != nil && conc.Block == blockIdx && conc.At == pts {
+			inReq = true
+			c01Request(w, conc.Req)
+			inReq = false
+		}
+	}
+	defer func() { vrt.OnPoint = nil }()
+	for bi, blk := range c.Blocks {
 		base := w.App.FeeMarketKeeper.GetBaseFee(w.Ctx()).BigInt()
 		var txs [][]byte
 		for pos, k := range blk {
@@ -277,10 +315,16 @@ func c01Exec(c c01Case, p c01Policy) (vec []string, hits c01Hits, outcome string
 		}
 		c01CurBlockTim = w.BlockTime(w.Height + 1)
 		opt := world.BlockOpt{}
-		if b := p["between"]; b != 0 {
-			opt.Between = func() { c01Between(w, b, base) }
+		opt.Between = func() {
+			inBlock = false
+			if b := p["between"]; b != 0 {
+				c01Between(w, b, base)
+			}
 		}
+		blockIdx, pts, inBlock, sites = bi, 0, true, nil
 		br := w.Block(txs, opt)
+		inBlock = false
+		points = append(points, sites)
 		if br.Panic != "" || br.Err != nil {
 			vec = append(vec, fmt.Sprintf("PANIC=%q ERR=%v", br.Panic, br.Err))
 			oc = append(oc, "block-failed")
@@ -304,7 +348,7 @@ func c01Exec(c c01Case, p c01Policy) (vec []string, hits c01Hits, outcome string
 		fmt.Fprintf(&sb, "block-events=%s\nvalupdates=%v\n", world.EventsString(br.Res.Events), br.Res.ValidatorUpdates)
 		vec = append(vec, sb.String())
 	}
-	return vec, hits, strings.Join(oc, ",")
+	return vec, hits, strings.Join(oc, ","), points
 }
 
 // c01Between issues one query-path request between FinalizeBlock and Commit.
@@ -371,6 +415,7 @@ type c01Replay struct {
 	Case   c01Case   `json:"case"`
 	Policy c01Policy `json:"policy"`
 	Repeat int       `json:"repeat,omitempty"` // > 0: the finding is about repeated executions of the same policy in one process
+	Conc   *c01Conc  `json:"conc,omitempty"`   // concurrent-request pass: the request and where it is served
 }
 
 func c01Diff(a, b []string) string {
@@ -513,6 +558,14 @@ func runC01(replay string) int {
 			if err := json.Unmarshal(raw, &r); err != nil {
 				return []ev.Finding{{Clause: "replay-file", Detail: err.Error()}}
 			}
+			if r.Conc != nil {
+				ref, _, _, _ := c01ExecConc(r.Case, r.Policy, nil)
+				got, _, _, _ := c01ExecConc(r.Case, r.Policy, r.Conc)
+				if strings.Join(got, "|") != strings.Join(ref, "|") {
+					return []ev.Finding{{Clause: "independent-of-concurrently-served-requests", Detail: c01Diff(ref, got)}}
+				}
+				return nil
+			}
 			ref, _, _ := c01Exec(r.Case, c01Policy{})
 			if r.Repeat > 0 {
 				for i := 1; i < r.Repeat; i++ {
@@ -535,6 +588,7 @@ func runC01(replay string) int {
 		bound = 2
 	}
 	hist := c01Histories(run.Thorough())
+	units := c01ConcUnits(run.Thorough())
 	budget := ev.NewDeadline(secs(170))
 	if run.Thorough() {
 		budget = ev.NewDeadline(secs(1500))
@@ -566,6 +620,22 @@ func runC01(replay string) int {
 				run.Sample(map[string]interface{}{"history": c.String(), "environment_executions": execs})
 			}
 		}
+		// concurrent-request pass (c01_conc.go)
+		for _, u := range units {
+			if budget.Hit() {
+				skipped++
+				continue
+			}
+			// thorough: every dynamic hit of every point for the histories in which the access list is observable under the default order
+			everyHit := run.Thorough() && u.Order == 0 && strings.Contains(u.Case.String(), "probe-cpcs")
+			execs, placements := c01ConcCheck(run, u, everyHit, shard, n)
+			run.Count("transitions", int64(execs))
+			run.Count("conc_placements", int64(placements))
+			if shard == 0 {
+				run.Count("conc_units", 1)
+				run.Outcome(fmt.Sprintf("conc:%s", c01ReqNames[u.Req]))
+			}
+		}
 		if firstCase != nil {
 			warm, _, _ := c01Exec(*firstCase, c01Policy{})
 			run.Count("fresh_vs_warm_process_comparisons", 1)
@@ -589,8 +659,10 @@ func runC01(replay string) int {
 	}
 	run.Coverage["rule"] = fmt.Sprintf("histories: %d (1 tx of each of %d kinds; order-sensitive kinds paired in one block and across two blocks); for every history every environment policy with <= %d non-default answers "+
 		"over the choice sites hit (map-range order per site: sorted/reversed/rotated; wall clock per site: block time/2000/2100; node min-gas-prices; EVM tracer; request between FinalizeBlock and Commit: none/CheckTx/Simulate/eth_call) is executed on a fresh app; "+
-		"a state is a history, a transition one complete execution of it; distinct = instrumented sites reached + differing (history, policy) pairs", len(hist), len(c01Alphabet), bound)
+		"concurrent-request pass: %d units (history x order of the fork's precompile map x request of {eth_call latest, eth_call latest-1, estimateGas, eth_call self-destruct latest-1, CheckTx}), in each the request is served completely at every statement-level point FinalizeBlock passes in x/evm/keeper, x/evm/vm, x/cpc/keeper (%d placements, one preemption of the block thread) and the block results must equal the undisturbed run; "+
+		"a state is a history, a transition one complete execution of it; distinct = instrumented sites reached + differing (history, policy) pairs", len(hist), len(c01Alphabet), bound, len(units), run.Counter("conc_placements"))
 	run.Assumptions = []string{"nondeterminism inside cosmos-sdk, IAVL, CometBFT, the go-ethereum fork and the Go runtime is not owned (trusted)",
-		"an environment answer is fixed per site for a whole execution (not per dynamic hit)", "map ranges are explored for 3 orders (sorted, reversed, rotated), not all permutations"}
+		"an environment answer is fixed per site for a whole execution (not per dynamic hit)", "map ranges are explored for 3 orders (sorted, reversed, rotated), not all permutations",
+		"concurrent requests: the request runs to completion at one point of block execution (preemption bound 1; torn overlaps of request and block are not explored), points exist only in the instrumented files, requests are limited to the five listed"}
 	return run.Finish()
 }
